@@ -9,7 +9,7 @@
 #![cfg(huginn_net_verif_sched)]
 
 use crate::conn::{self, Conn, ConnKind, ConnOpts, MergeMode};
-use crate::pkt::{Endpoint, Framing};
+use crate::pkt::{self, Endpoint, Framing};
 use crate::pool::{self, ExecPlan, PoolCfg, PoolKind, Sched};
 use crate::rng::Rng;
 use crate::runner::{Prop, RunStats, Tier, Violation};
@@ -221,6 +221,68 @@ fn gen_trace_in(r: &mut Rng, kind: PoolKind, n: usize, segmented_tls: bool, prob
     conn::to_trace(&conns, &order)
 }
 
+/// Population trace: `n` connections that are all open at the same time — every connection's k-th packet
+/// arrives before any connection's (k+1)-th — so each worker's flow table holds its whole share at once.
+fn gen_population(r: &mut Rng, kind: PoolKind, n: usize) -> Vec<Timed> {
+    let mut eps: Vec<(Endpoint, Endpoint)> = Vec::with_capacity(n);
+    let mut seen = std::collections::BTreeSet::new();
+    while eps.len() < n {
+        let c = Endpoint::v4(10, r.u8(), r.u8(), 1 + r.below(250) as u8, 1024 + r.below(60000) as u16);
+        let s = Endpoint::v4(172, 16, r.u8(), 1 + r.below(250) as u8, *r.pick(&[80u16, 443, 8080, 8443]));
+        // distinct sending hosts too: the TCP pool shards, and keeps its timestamp state, per sender
+        if seen.insert(c.ip) && seen.insert(s.ip) {
+            eps.push((c, s));
+        }
+    }
+    let o = ConnOpts { v6: false, framing: Framing::Ethernet, max_parts: 3, gap_lo: 1000, gap_hi: 2000, tls_single_segment: false };
+    let conns: Vec<Conn> = eps
+        .iter()
+        .map(|(c, s)| {
+            let ck = match kind {
+                PoolKind::Tcp => ConnKind::TcpOnly,
+                PoolKind::Tls => ConnKind::Tls,
+                PoolKind::Http => ConnKind::Http1,
+            };
+            let mut c = conn::build(r, ck, *c, *s, &o);
+            // every connection must be incomplete for a while: the client's bytes are re-cut into exactly two segments,
+            // the first ending inside the message that yields the result (ClientHello record / request head)
+            let client = c.client;
+            let data: Vec<usize> = c.steps.iter().enumerate().filter(|(_, st)| st.seg.src == client && !st.seg.payload.is_empty() && st.seg.flags & pkt::RST == 0).map(|(i, _)| i).collect();
+            if let Some(&i0) = data.first() {
+                let mut stream: Vec<u8> = vec![];
+                for &i in &data {
+                    stream.extend_from_slice(&c.steps[i].seg.payload);
+                }
+                let inside = if stream.len() >= 5 && stream[0] == 0x16 {
+                    (5 + u16::from_be_bytes([stream[3], stream[4]]) as usize).min(stream.len())
+                } else {
+                    stream.windows(4).position(|w| w == b"\r\n\r\n").map(|p| p + 4).unwrap_or(stream.len())
+                };
+                if inside >= 12 {
+                    let cut = r.urange(6, inside - 1);
+                    let fin = data.iter().any(|&i| c.steps[i].seg.flags & pkt::FIN != 0);
+                    for &i in data.iter().skip(1).rev() {
+                        c.steps.remove(i);
+                    }
+                    let mut second = c.steps[i0].clone();
+                    second.seg.payload = stream[cut..].to_vec();
+                    second.seg.seq = c.steps[i0].seg.seq.wrapping_add(cut as u32);
+                    if fin {
+                        second.seg.flags |= pkt::FIN;
+                    }
+                    c.steps[i0].seg.payload = stream[..cut].to_vec();
+                    c.steps[i0].seg.flags &= !pkt::FIN;
+                    c.steps.insert(i0 + 1, second);
+                }
+            }
+            c
+        })
+        .collect();
+    let lens: Vec<usize> = conns.iter().map(|c| c.steps.len()).collect();
+    let order = conn::merge_order(r, &lens, MergeMode::RoundRobin);
+    conn::to_trace(&conns, &order)
+}
+
 fn gen_cfg(r: &mut Rng, kind: PoolKind, trace_len: usize) -> PoolCfg {
     PoolCfg { kind, workers: *r.pick(&[1usize, 2, 2, 3, 4, 5, 8, 16]), queue: trace_len + 8, batch: *r.pick(&[1usize, 2, 8, 32, 64]), timeout_ms: *r.pick(&[1u64, 10, 100]), cap: 200, with_db: r.chance(2, 3), filter: None }
 }
@@ -243,6 +305,19 @@ fn shrink_common(s: &Scn) -> Vec<Scn> {
     let mut tags: Vec<usize> = s.trace.iter().map(|p| p.conn).collect();
     tags.sort();
     tags.dedup();
+    if tags.len() > 24 {
+        // a population: halve the set of connections (and the capacity with it when it was tight) instead of
+        // proposing one candidate per connection or per frame
+        for keep in [0usize, 1, 2] {
+            let mut x = s.clone();
+            let half: std::collections::BTreeSet<usize> = tags.iter().enumerate().filter(|(i, _)| match keep { 0 => *i < tags.len() / 2, 1 => *i >= tags.len() / 2, _ => i % 2 == 0 }).map(|(_, t)| *t).collect();
+            x.trace.retain(|p| half.contains(&p.conn));
+            out.push(x.clone());
+            x.cfg.cap = (x.cfg.cap / 2).max(1);
+            out.push(x);
+        }
+        return out;
+    }
     if tags.len() > 1 {
         for t in tags {
             let mut x = s.clone();
@@ -250,10 +325,12 @@ fn shrink_common(s: &Scn) -> Vec<Scn> {
             out.push(x);
         }
     }
-    for i in (0..s.trace.len()).rev() {
-        let mut x = s.clone();
-        x.trace.remove(i);
-        out.push(x);
+    if s.trace.len() <= 400 {
+        for i in (0..s.trace.len()).rev() {
+            let mut x = s.clone();
+            x.trace.remove(i);
+            out.push(x);
+        }
     }
     out
 }
@@ -283,6 +360,16 @@ impl Prop for C10 {
 
     fn generate(r: &mut Rng, tier: Tier, _idx: u64) -> Scn {
         let kind = *r.pick(&PoolKind::ALL);
+        // one scenario in forty: a population of simultaneously open connections that exactly fills the configured capacity
+        if r.chance(1, 40) {
+            let n = r.urange(300, tier.pick(700, 1500));
+            let trace = gen_population(r, kind, n);
+            let mut cfg = gen_cfg(r, kind, trace.len());
+            cfg.workers = *r.pick(&[2usize, 2, 3, 4]);
+            // the TCP analyzer tracks timestamps per direction: two entries per connection
+            cfg.cap = if kind == PoolKind::Tcp { 2 * n } else { n };
+            return Scn { cfg, trace, probe: vec![], via_analyzer: false, schedules: vec![r.next_u64()], iters: 2, sched: Sched::Random };
+        }
         let n = r.urange(2, tier.pick(6, 12));
         let trace = gen_trace(r, kind, n, true);
         let cfg = gen_cfg(r, kind, trace.len());
